@@ -20,7 +20,7 @@ def sh(cmd, cwd, timeout=2400):
     env.pop("GOSUMDB", None)
     try:
         p = subprocess.run(cmd, cwd=cwd, shell=True, env=env, stdout=subprocess.PIPE, stderr=subprocess.STDOUT,
-                           text=True, timeout=timeout)
+                           text=True, errors="replace", timeout=timeout)
         return p.returncode, p.stdout[-3000:]
     except subprocess.TimeoutExpired:
         return 124, "timeout"
